@@ -24,15 +24,17 @@ from mc import ufo_build as B
 from mc.explore import Property, Result, digest, jdump, violation
 
 MARKER = "# Automatic Code"
-GPOS_TAGS = ["kern", "dist", "mark", "mkmk", "curs"]
+GPOS_TAGS = ["kern", "dist", "mark", "mkmk", "curs", "abvm", "blwm"]
 RULE = {  # two distinct hand-written rules per tag (values never produced by the writers)
     "kern": ("pos a b -11;", "pos b a -12;"),
     "dist": ("pos ka-deva ta-deva -13;", "pos ta-deva ka-deva -14;"),
     "mark": ("pos a 15;", "pos b 16;"),
     "mkmk": ("pos acutecomb 17;", "pos f_i 18;"),
     "curs": ("pos a 19;", "pos b 21;"),
+    "abvm": ("pos ka-deva 22;", "pos ta-deva 23;"),
+    "blwm": ("pos ka-deva 24;", "pos ta-deva 25;"),
 }
-SHAPES = ["plain", "alone", "top", "middle", "bottom", "miscased"]
+SHAPES = ["plain", "alone", "top", "middle", "bottom", "miscased", "commented", "prose"]
 GEN_TAGS = ("kern", "dist", "mark", "mkmk", "abvm", "blwm", "curs")
 
 
@@ -45,6 +47,9 @@ def block(tag, shape):
         "middle": f"    {r1}\n    {MARKER}\n    {r2}\n",
         "bottom": f"    {r1}\n    {MARKER}\n",
         "miscased": f"    {r1}\n    # automatic code\n",
+        # comments that merely mention the marker are not markers
+        "commented": f"    {r1}\n    ## Automatic Code\n",
+        "prose": f"    {r1}\n    # hand-tuned, do not re-enable the # Automatic Code marker\n    {r2}\n",
     }[shape]
     return f"feature {tag} {{\n{body}}} {tag};\n"
 
@@ -188,7 +193,8 @@ def user_rules(ops, tag):
         r1, r2 = (" ".join(x.split()) for x in RULE[tag])
         before, after, marker = {
             "plain": ([r1], [], False), "alone": ([], [], True), "top": ([], [r1], True),
-            "middle": ([r1], [r2], True), "bottom": ([r1], [], True), "miscased": ([r1], [], False)}[s]
+            "middle": ([r1], [r2], True), "bottom": ([r1], [], True), "miscased": ([r1], [], False),
+            "commented": ([r1], [], False), "prose": ([r1, r2], [], False)}[s]
         if marker and first is None:
             first = (len(allrules) + len(before), )
         allrules += before + after
@@ -264,8 +270,9 @@ class C17(Property):
             viols.append(violation("user-statement-lost-or-reordered", feat, user=spec["features"],
                                    emitted=fea, user_flat=user_flat, emitted_flat=emitted))
         # (2)/(3) per hand-written GPOS tag
-        active = {"default": GPOS_TAGS, "lib": ["kern", "dist", "mark", "mkmk"], "kern-only": ["kern", "dist"],
-                  "ellipsis+custom": GPOS_TAGS}.get(head["writers"], ["kern", "dist", "mark", "mkmk"])
+        mark_tags = ["mark", "mkmk", "abvm", "blwm"]
+        active = {"default": GPOS_TAGS, "lib": ["kern", "dist"] + mark_tags, "kern-only": ["kern", "dist"],
+                  "ellipsis+custom": GPOS_TAGS}.get(head["writers"], ["kern", "dist"] + mark_tags)
         for tag in GPOS_TAGS:
             rules, first = user_rules(ops, tag)
             if not any(o.startswith(tag + ":") for o in ops):
@@ -288,7 +295,9 @@ class C17(Property):
                 if not ok:
                     viols.append(violation("marker-position", dict(feat, tag=tag), user=spec["features"],
                                            before=before, after=after, observed=got, emitted=fea))
-                elif tag in active and not generated:
+                elif tag in active and not generated and tag not in ("abvm", "blwm"):
+                    # (abvm/blwm are generated only for Indic scripts the feature file does not rule out
+                    #  through its languagesystem statements)
                     viols.append(violation("marker-nothing-generated", dict(feat, tag=tag),
                                            user=spec["features"], emitted=fea))
         # (3b) hand-written GDEF statements are neither overwritten nor duplicated
@@ -323,6 +332,9 @@ class C17(Property):
             for group in (("kern", "dist"), ("abvm", "blwm", "mark", "mkmk")):
                 marked = {o.split(":")[0] for o in ops if ":" in o and o.split(":")[0] in group
                           and o.split(":")[1] in ("alone", "top", "middle", "bottom")}
+                if any(":" in o and o.split(":")[0] in group and o.split(":")[1] not in
+                       ("alone", "top", "middle", "bottom") for o in ops) and marked:
+                    continue  # a protected block of the same writer next to a marker: order is the user's
                 if len(marked) > 1:
                     continue  # several markers of one writer: the user's markers dictate the order
                 common = [t for t in o_ref if t in o_got and t in group]
